@@ -46,6 +46,20 @@ def op_strategy():
     )
 
 
+@st.composite
+def nested_histories(draw):
+    """3-5 nested blocks over only two namespaces (so a namespace is re-entered around / inside the other one, the
+    global one more often than not), closed in LIFO order, mostly normally; then possibly one more block"""
+    pair = draw(st.sampled_from([('a', 'G'), ('a', 'G'), ('b', 'G'), ('a', 'b')]))
+    k = draw(st.integers(3, 5))
+    hist = [['enter', draw(st.booleans()), draw(st.sampled_from(pair))] for _ in range(k)]
+    for _ in range(draw(st.integers(1, k))):
+        hist.append(['exit', draw(st.sampled_from(['normal', 'normal', 'normal', 'raise', 'raise_base']))])
+    if draw(st.booleans()):
+        hist += [['enter', draw(st.booleans()), draw(st.sampled_from(pair))], ['exit', 'normal']]
+    return hist
+
+
 class C13(runner.Prop):
     ID = 'C13'
     LEVEL = 'model_checking'
@@ -67,7 +81,7 @@ class C13(runner.Prop):
 
     def strategy(self, tier):
         return st.fixed_dictionaries({
-            'hist': st.lists(op_strategy(), min_size=1, max_size=10),
+            'hist': st.one_of(st.lists(op_strategy(), min_size=1, max_size=10), nested_histories()),
             't': gen.tree_descs(8, kinds=('dict', 'dd', 'od', 'list', 'tuple', 'cg', 'cn', 'deque'),
                                 keys=gen.key_descs(total_only=True))})
 
